@@ -59,3 +59,12 @@
        (let ((f (select (select Mem_Val (s-arr (anys_of v))) (s-off (anys_of v)))))
          (and ((_ is v_str) f)
               (let ((u (toUpper (str_of f)))) (or (= u "LIST") (= u "AND") (= u "OR") (= u "NOT") (= u "BASIC")))))))
+; ---- C18: encapsulation list (cfg.go setEncap): a string is refused when it occurs in an entry already stored
+(define-fun inEntry ((Mem_Str (Array Int (Array Int String))) (e Slice) (s String) (n Int)) Bool
+  (exists ((k Int)) (! (and (<= 0 k) (< k n) (= (select (select Mem_Str (s-arr e)) (+ (s-off e) k)) s))
+                       :pattern ((select (select Mem_Str (s-arr e)) (+ (s-off e) k))))))
+(define-fun inUse ((Mem_Slice (Array Int (Array Int Slice))) (Mem_Str (Array Int (Array Int String))) (enc Slice) (s String) (n Int)) Bool
+  (exists ((u Int)) (! (and (<= 0 u) (< u n)
+                            (inEntry Mem_Str (select (select Mem_Slice (s-arr enc)) (+ (s-off enc) u)) s
+                                     (s-len (select (select Mem_Slice (s-arr enc)) (+ (s-off enc) u)))))
+                       :pattern ((select (select Mem_Slice (s-arr enc)) (+ (s-off enc) u))))))
